@@ -15,4 +15,10 @@ func init() {
 		Old: "func fdAddrMapper(c configs.Root, index tla.Value) string {\n", New: "var lastRoot configs.Root\n\nfunc fdAddrMapper(c configs.Root, index tla.Value) string {\n\tif len(c.Replicas) == 0 {\n\t\tc = lastRoot\n\t}\n\tlastRoot = c\n", Expect: "fdAddrMapper"})
 	seed(Seed{Name: "precommit-keeps-closed-conn", Prop: "C17", Rule: "MB-CONN-DROP", File: "distsys/resources/tcpmailboxes.go",
 		Old: "\t\t\tres.conn = nil\n\t\t\tch <- distsys.ErrCriticalSectionAborted\n", New: "\t\t\tch <- distsys.ErrCriticalSectionAborted\n", Expect: "PreCommit"})
+	seed(Seed{Name: "put-timeout-reported-as-success", Prop: "C14", Rule: "FRONTEND-ANSWER", File: "systems/pbkvs/bootstrap/client.go",
+		Old: "\tcase resp := <-c.respCh:\n\t\treturn Response(resp.AsString()), nil\n\tcase <-c.timer.C:\n\t\tc.timerDrained = true\n\t\treturn Response(\"\"), errors.New(\"timeout\")", New: "\tcase resp := <-c.respCh:\n\t\treturn Response(resp.AsString()), nil\n\tcase <-c.timer.C:\n\t\tc.timerDrained = true\n\t\treturn Response(value), nil", Expect: "Client.Put"})
+	seed(Seed{Name: "length-view-remembers", Prop: "C06", Rule: "MB-LEN", File: "distsys/resources/mailboxes.go",
+		Old: "\treturn res.mailbox.length(), nil\n", New: "\tn := res.mailbox.length()\n\tif n.AsNumber() > 1 {\n\t\treturn tla.MakeNumber(1), nil\n\t}\n\treturn n, nil\n", Expect: "asks-the-mailbox"})
+	seed(Seed{Name: "queue-append-under-new-guard", Prop: "C15", Rule: "LOCK-DECISION", File: "systems/locksvc/locksvc.tla",
+		Old: "                q := Append(q, msg.from);\n", New: "                if (Len(q) < NumClients) {\n                    q := Append(q, msg.from);\n                };\n", Expect: "queues-every-requester"})
 }
